@@ -33,7 +33,7 @@ COH = {1: [(1,)],
        3: [(1, 0, 0), (0, 1, 0), (0, 0, 1), (H, H, 0), (H, F(1, 4), F(1, 4)), (F(1, 4), F(1, 4), H), (0, H, H), (F(3, 5), F(1, 5), F(1, 5))]}
 SMALL = [0, 1, 1, 2, 3, 5, 7, 20]
 WIDE = [0, 1, 3, 10, 1000, 10**5, 10**6]
-SCALES = [1, 1, 1e-6, 1000.0, 0.1]
+SCALES = [1, 1, 1e-6, 1000.0, 0.1, 1e-10, 1e-12]   # un-normalised supports down to 1e-12: every positive support counts
 BLOCN = ["X", "Y", "Z"]
 
 
